@@ -44,6 +44,44 @@ DESC = {
  "C18-m2": ("case-insensitive leniency in headers.Check lower-cases per element", "upper-case spellings of allowed names, repeated N times"),
  "C19-m1": ("early exit not propagated to the loop over siblings", "break at any leaf other than the last"),
  "C19-m2": ("traversal limited to two levels", "a join nested three levels deep"),
+ "C01-r2m1": ("Contains follows the matching edge first and consults the `*.` entry only when stuck", "`*.` pattern plus a non-subsumed deeper pattern (other scheme/port); origin leading into that branch"),
+ "C01-r2m2": ("single-origin fast path compares the Origin textually with the lone pattern", "exactly one listed pattern with a plain host and `:*`: nothing ever matches; listing it twice works"),
+ "C02-r2m1": ("processACRH skips Check when the first ACRH line equals the full allowed list", "ACRH split over >= 2 lines, first = full list, a disallowed name later"),
+ "C02-r2m2": ("Authorization after `*` no longer sets allowAuthorization", "anonymous config [*, Authorization], request carrying authorization"),
+ "C03-r2m1": ("node.add appends a new scheme's port list instead of inserting it at the scheme's index", "same host, two schemes with different port sets, later-listed scheme sorts first: scheme downgrade echoed"),
+ "C03-r2m2": ("preflight origin step fills the buffer (ACAO, ACAC) before the lookup; debug copies it on failure", "debug on, preflight from a valid but disallowed origin, config not allow-all"),
+ "C04-r2m1": ("public-suffix guard skipped for patterns listed after `*`", "`*` then `https://*.com`, tolerance off, no credentials/PNA"),
+ "C04-r2m2": ("status bounds checked on a uint8 offset", "status congruent to 200..299 mod 256 (500, 1, -1)"),
+ "C05-r2m1": ("status bounds checked on a uint8 offset", "PreflightSuccessStatus 456 etc.: the status error is missing"),
+ "C05-r2m2": ("the two `*` incompatibility errors alias one struct", "`*` with Credentialed AND a PNA mode: `pna` reported twice, `credentialed` never"),
+ "C06-r2m1": ("node.elems brackets the accumulated suffix in place and hands it to children", "two IPv6 patterns sharing a suffix that contains a colon (::1 and fe80::1)"),
+ "C06-r2m2": ("Config() omits the insecure-origins tolerance in no-cors-only PNA mode", "no-cors-only PNA + insecure origin + tolerance flag, not credentialed"),
+ "C07-r2m1": ("memoised Config() whose store does not re-check the current configuration", "Config() racing with two Reconfigure calls: a stale normal form is served afterwards"),
+ "C07-r2m2": ("SetDebug decides under the read lock and writes later without the passthrough guard", "SetDebug(true) racing with Reconfigure(nil): (passthrough, debug on)"),
+ "C08-r2m1": ("errors accumulated before validateMaxAge are dropped when MaxAgeInSeconds == -1", "an invalid config (origins/methods/...) with max-age -1 and valid response headers: accepted, tree left empty"),
+ "C08-r2m2": ("Reconfigure reuses the current tree when origins/cred/tolerances match - PNA flags not in the key", "Config() with PNA switched on over an insecure origin"),
+ "C09-r2m1": ("the debug-mode header list is built lazily by SetDebug(true) and not by Reconfigure", "SetDebug(true) before Reconfigure(B) with discrete request headers; preflight reaching the header step"),
+ "C09-r2m2": ("SetDebug check-then-act window", "only concurrently: SetDebug(true) racing with Reconfigure(nil)"),
+ "C10-r2m1": ("Vary de-duplication by substring match", "a pre-set Vary value whose name contains `Origin` (X-Forwarded-Origin)"),
+ "C10-r2m2": ("explicit allowAnyOrigin flag; the ACAO decision of actual requests still tests tree.IsEmpty", "`*` mixed with another pattern"),
+ "C11-r2m1": ("preflights are only recognised in no-cors-only PNA mode when ACRPN is true", "no-cors-only PNA + genuine preflight without ACRPN: the handler runs"),
+ "C11-r2m2": ("Vary rewritten through Header.Get / Header.Set", "two or more pre-set Vary field lines"),
+ "C12-r2m1": ("non-CORS path installs the shared OriginSgl slice when no Vary is present", "no Origin, non-OPTIONS, restricted origins, handler writing Vary in place"),
+ "C12-r2m2": ("memo of the last approved ACRH value keyed on the first field line only", "a prior successful single-line preflight, then a multi-line ACRH with the same first line"),
+ "C13-r2m1": ("wildcard length cap measured on the untrimmed input (port bytes counted)", "`*.` + domain within a few bytes of 251 + a port"),
+ "C13-r2m2": ("IDNA skipped for hyphen-free hosts; hand-rolled length check forgets the last label", "over-long LAST label, no trailing dot, no hyphen"),
+ "C14-r2m1": ("isOWS as a bitmap indexed by b&63", "bytes 0x49, 0x60, 0x89, 0xA0, 0xC9, 0xE0 next to an allowed name"),
+ "C14-r2m2": ("processACRH skips Check when the first ACRH line equals the full allowed list", ">= 2 lines, first = full list"),
+ "C15-r2m1": ("node.add appends a new scheme's port list", "https listed before http on the same host with different ports"),
+ "C15-r2m2": ("`*` resets the tree instead of discarding it at the end", "`*` mixed with patterns and not in last position"),
+ "C16-r2m1": ("preflight steps write straight to the response; the failure clean-up forgets ACAPN", "PNA + ACRPN true + a later step failing, debug off"),
+ "C16-r2m2": ("headers.First treats an empty first value as absent", "OPTIONS with an empty ACRM or Origin value: actual-path headers on what should be a refused preflight"),
+ "C17-r2m1": ("Tree.Contains reads host[len(host)-1] before the emptiness test", "Origin with an empty host: https://:8080, https://[]:8080"),
+ "C17-r2m2": ("cfgerrors.All as a recursive walk that does not propagate a stop out of a nested join", "break inside a nested join with another top-level child to come"),
+ "C18-r2m1": ("reflected ACRH lines coalesced with an unsized strings.Builder", "`*` headers + credentialed + >= 2 ACRH field lines"),
+ "C18-r2m2": ("Check retries after lower-casing every line", "discrete allow-list, debug off, rejected ACRH containing upper-case bytes, many lines"),
+ "C19-r2m1": ("join-of-one fast path discards the consumer's stop", "a join of exactly one error nested in a join, break on its leaf, something still to come"),
+ "C19-r2m2": ("explicit-stack traversal with a stale pointer across append", "joins nested at least four levels deep: leaves duplicated"),
 }
 
 
